@@ -70,6 +70,8 @@ def S(a):
         return a
     if a.dtype == object:
         out = a if isinstance(a, SArr) else a.view(SArr)
+        if out.size == 0:
+            return out
         flat = out.reshape(-1) if out.flags['C_CONTIGUOUS'] else None
         if flat is not None and _np.shares_memory(flat, out):
             for i in range(flat.size):
